@@ -5,6 +5,9 @@ HERE = os.path.dirname(os.path.abspath(__file__))
 TB = ("Lean 4.33.0 kernel (axioms: propext, Classical.choice, Quot.sound only; audited per theorem); "
       "hand-written Lean model tied to the code by an in-process differential correspondence run (go build -overlay harness) on every run; ")
 CHECKS = {
+ "C20": dict(text="Lean theorems match_iff_component_prefix (for all clean paths of any depth a configured directory matches iff it is an ancestor-or-self by path components: a sibling sharing a name prefix is never captured), lookup_is_deepest_ancestor and lookup_default_when_outside (for every map iteration order), deepest_unique, and the key-precedence facts of AllRegoVersions. Tie: exhaustive lookups over small key/dir universes through the real RegoVersionFromVersionsMap (repeated to expose map-order dependence) and real temp trees (config roots, .manifest files, relative and absolute spelling) through AllRegoVersions + InputFromPaths.",
+             note=TB + "OPA parser decides what parses under v0/v1; clean configured directories; LSP/fix path forms not covered", ref="5/C20",
+             technique="Lean 4 proof (string-prefix = component-prefix lemma, fold invariant) + exhaustive differential correspondence"),
  "C02": dict(text="Lean theorems walk_spec (every tree, any depth: the walk returns exactly the .rego files with no skipped directory between argument and file; a missing argument fails the run), filter_sound_complete (C05), per_file_compose / single_file_run (non-aggregate violations of a batch = concatenation of the single-file runs, for all Env), summary_consistent, scanned_eq; error propagation from SelectProto. Tie: real temp trees through FilterIgnoredPaths vs the Walk model; batch-vs-single lints through the real linter vs the kernel.",
              note=TB + "WalkDir visits entries in lexical order; Env.OpsIrrelevant sampled", ref="5/C02",
              technique="Lean 4 proof (mutual structural induction on trees, fold closed forms) + differential correspondence"),
